@@ -143,7 +143,9 @@ def run_plan(task):
                 try:
                     op.apply(state, allow_inapplicable_actions=allow)
                     direct = "ok"
-                except ValueError:
+                except Exception as e:  # noqa
+                    if not lib.is_refusal(e):
+                        raise
                     direct = "refused"
             return trips, lines, keys, init_digest, direct
 
